@@ -495,6 +495,9 @@ func normalizeTree(repo string, extraEnv []string, overlay map[string][]byte) (m
 		ns := &normState{pkgs: mp, fset: fset, overlay: cur, keepUsed: map[types.Object]bool{}}
 		es := ns.planRenames()
 		if len(es) == 0 {
+			es = ns.planFlatten()
+		}
+		if len(es) == 0 {
 			es = ns.planFolds()
 		}
 		if len(es) == 0 {
